@@ -212,6 +212,8 @@ def sentences(a: S.AbsConn, ev, eff, post_tokens, reached=False):
         return
     if post.state == 8 and a.state != 8:
         cause = ",".join(e for e in eff if e.startswith("C=")) or "-"
+        tags = {t for t, _ in ev[2][1]}
+        cause += ":reply-unsendable" if {98, 108} <= tags else ":logout-unsendable"
         yield (f"C11-half-logged-on:{cause}", "acceptor left in LOGON_INITIAL_RECV: the peer's Logon was received but "
                "never answered, yet messages are delivered and sends accepted from that state")
     m = ev[2]
